@@ -280,6 +280,7 @@ func propFaults(t *rapid.T) {
 		kit.WaitUntil(2*time.Second, func() bool { _, err := b.Network().Node(s.a.Name()); return err == nil })
 	}
 	// the fault
+	var trafficBefore uint64
 	reasonOK := []error{gen.ErrNoConnection}
 	switch fault {
 	case 0:
@@ -303,6 +304,12 @@ func propFaults(t *rapid.T) {
 			px.CutAll() // the armed point lies beyond the transcript: cut now
 		}
 	case 6:
+		// (traffic counters of the connection as it is now: a connection that is replaced by a new
+		// one - lost and re-established for reasons of its own - starts counting from zero)
+		if rn, err := s.a.Network().Node(bname); err == nil {
+			i := rn.Info()
+			trafficBefore = i.MessagesIn + i.MessagesOut
+		}
 		b.Send(tgt.pid, kit.Stop{Reason: errors.New("remote-custom-reason")})
 		reasonOK = nil
 	}
@@ -373,8 +380,12 @@ func propFaults(t *rapid.T) {
 		expect := 1
 		if fault == 6 && o.kind == 4 {
 			expect = 0 // the node is still connected
-			if _, err := s.a.Network().Node(bname); err != nil {
+			rn, err := s.a.Network().Node(bname)
+			if err != nil {
 				continue // unless the connection did go down for a reason of its own (not part of this case)
+			}
+			if i := rn.Info(); i.MessagesIn+i.MessagesOut < trafficBefore {
+				continue // ... and has been re-established since
 			}
 		}
 		if len(o.reasons) != expect {
